@@ -221,6 +221,15 @@ def run(ctx):
     ctx.notes["exhaustive_part"] = "1-2 item sweep is complete and seed independent; the grammar stream is sampled"
     for i in range(0, len(cases), 20000):
         check_cases(ctx, cases[i:i + 20000])
+    # the hypothesis `BoundedLimits` of C01_parse_render: CPython's int() refuses decimal strings of more than 4300 digits
+    for ndigits, inside in ((4300, True), (4301, False)):
+        text = "1..." + "9" * ndigits
+        itag, ival = impl_range(text, [5])
+        case = {"text": "1...<%d nines>" % ndigits, "impl": itag if ival is None else "ok"}
+        ctx.count(key=("int-limit", ndigits), nontrivial=True, branch="int-limit:%s" % itag)
+        if ival is None:
+            ctx.violation("C01:rejects-wellformed:%s" % ("decimal-limit-beyond-4300-digits" if not inside else "decimal-limit-of-4300-digits"),
+                          "Range('1...' + '9' * %d) is refused (%s) although the description is well-formed" % (ndigits, itag), case)
     ctx.assumptions = ["well-formed = non-empty, closed items with lower <= upper, pairwise non-overlapping; spellings as in Spec.LegalSpelling"]
 
 
